@@ -76,6 +76,8 @@ pub struct Puppet {
     pub siglog_n: u64,
     pub sigrtmin: i32,
     pub threads: Vec<PThread>,
+    /// threads that are not template threads (e.g. the vfork waiter); the dumper may touch them too
+    pub extra_tids: Vec<i32>,
 }
 
 fn parse_ptr(s: &str) -> u64 {
@@ -120,7 +122,7 @@ impl Puppet {
             libc::sched_setaffinity(pid, std::mem::size_of::<libc::cpu_set_t>(), &set);
         }
         let mem = std::fs::OpenOptions::new().read(true).write(true).open(format!("/proc/{pid}/mem")).expect("open puppet mem");
-        Puppet { child, stdin, stdout, pid, mem, siglog: parse_ptr(t[2]), siglog_n: parse_ptr(t[3]), sigrtmin: t[4].parse().unwrap(), threads: Vec::new() }
+        Puppet { child, stdin, stdout, pid, mem, siglog: parse_ptr(t[2]), siglog_n: parse_ptr(t[3]), sigrtmin: t[4].parse().unwrap(), threads: Vec::new(), extra_tids: Vec::new() }
     }
 
     /// Let the puppet (and the threads it creates from now on) run on every CPU again. For targets
@@ -259,6 +261,15 @@ impl Puppet {
 
     pub fn set_name(&mut self, tid: i32, name: &[u8]) {
         self.cmd(&format!("name {tid} {}", hex(name))).expect("name");
+    }
+
+    /// Start a thread that vforks a child sleeping `ms` milliseconds (the thread is in a killable-only
+    /// kernel wait meanwhile). Returns (tid, address of the counter it bumps when it is back).
+    pub fn vforkwait(&mut self, ms: u64) -> (i32, u64) {
+        let r = self.cmd(&format!("vforkwait {ms}")).expect("vforkwait");
+        let tid: i32 = r[0].parse().unwrap();
+        self.extra_tids.push(tid);
+        (tid, parse_ptr(&r[1]))
     }
 
     pub fn pattern(&mut self, pages: usize, tail: &str, prot: &str) -> u64 {
